@@ -367,6 +367,11 @@ def gen_runs(seed: int, tier: dict, targets: list[dict], repo: str, failing: set
                 elif j < length - 1 and rng.chance(0.2):
                     op["fault"] = {"frac": rng.below(10**6) / 10**6}
                 ops.append(op)
+        if ops and len(ops) < 9 and rng.chance(0.3):
+            # the very same operation once more at the end (same model through the same object twice)
+            again = copy.deepcopy(rng.choice(ops))
+            again.pop("fault", None)
+            ops.append(again)
         if ops:
             env["skew"] = [rng.choice(SKEWS) for _ in ops]
             _call_styles(rng, ops)
